@@ -22,10 +22,7 @@ EXPECTED = [
 
 
 def build(S, tier, seed):
-    S.install(loops={purge.PARSE_PATH_LOOP: purge.parse_path_loop_annot(),
-                     dates.PARSE_LOOP: dates.parse_loop_annot()})
-    S.install([purge.RemoveFile2()])
-    S.verify(purge.RemoveFileIfExists(), active=[purge.RemoveFile2().key])
+    purge.leaf_vcs(S)
     restore.restore_one_vc(S)
     purge.empty_vc(S, dry_run=False)
     purge.rm_vc(S)
